@@ -195,11 +195,16 @@ class C16(vlib.Driver):
                     "harness/c16.py: instance-level tap on the logits network's forward and on torch.distributions.Normal.sample "
                     "(recording only), reference float64 formulas of the oracle"]
     assumptions = ["the change-of-variables formula for tanh-squashed Gaussians is taken as the definition of the density (spec_logprob_row)",
-                   "float32 evaluation of the primitives by torch agrees with float64 within 1e-4 abs/rel, plus the stated conditioning slack of log(1-a^2+1e-6)",
+                   "float32 evaluation of the primitives by torch agrees with float64 within 1e-4 abs/rel, plus the stated conditioning slack of log(1-a^2+1e-6) near |a|=1 and of (x-mu)/sigma when |x|,|mu| >> sigma",
+                   "the outcome of torch.equal(tanh(sampled), action) on a stored tensor is an input of the model (it is true only when tanh saturates to the same +-1 values)",
                    "exp(-1e8 - logsumexp) underflows to exactly 0 in float32 (masked actions)",
                    "atanh(clamp(tanh x)) = x (hypothesis of logprob_is_spec_fresh; numerically valid for |x| < 8.3 in float32)",
                    "rows in which every action is masked are outside the property (generator keeps >= 1 legal action per categorical)"]
     shard = 60
+    notes = ["observation (not a violation of the property as stated): PPO.evaluate_actions / learn() re-evaluate stored actions without the "
+             "action mask that was in force during the rollout (masks are not part of the stored experience), so with masks the "
+             "re-evaluated log-probability is the one under the unmasked distribution; the model has the same semantics (ppo_evaluate_actions passes no mask)",
+             "IPPO is exercised without squashing only (squashed IPPO raises: known finding raises:ippo:ippo_get:box:squash)"]
 
     def __init__(self):
         self._formulas = {}
@@ -222,7 +227,7 @@ class C16(vlib.Driver):
 
     def generate(self, tier, rng):
         cases = []
-        reps = 1 if tier == "quick" else 8
+        reps = 1 if tier == "quick" else 6
         actor_reps = 3 if tier == "quick" else 4          # actor-level cases are cheap (no agent construction)
         for rep in range(reps):
             for sp in self.space_grid(rng, tier):
@@ -336,7 +341,12 @@ class C16(vlib.Driver):
         obs2 = obs1 if case["variant"] != "other" else g.uniform(-1, 1, (B, OBS_DIM)).astype(np.float32)
         m1 = self.make_mask(sp, case["mask_kind"], B, g) if case["masked"] else None
         m2 = (m1 if case["variant"] != "other" else self.make_mask(sp, case["mask_kind"], B, g)) if case["masked"] else None
-        env, out = {}, {}
+        env, out, hit = {}, {}, False
+
+        def fmt(m, k):      # the container types forward() accepts: int array, bool array, tensor (a python list raises: see design.d)
+            if m is None:
+                return None
+            return [m, m.astype(bool), torch.as_tensor(m)][(case["seed"] + k) % 3]
         if box:
             env["log_std"] = rows2(actor.head_net.log_std, 1)
             env["low"], env["high"] = [list(map(float, sp["low"]))], [list(map(float, sp["high"]))]
@@ -366,7 +376,7 @@ class C16(vlib.Driver):
 
         with Tap(actor) as tap, torch.no_grad():
             if scen == "fresh":
-                a, lp, ent = actor(torch.as_tensor(obs1), m1)
+                a, lp, ent = actor(torch.as_tensor(obs1), fmt(m1, 0))
                 env["logit"] = logits_or(tap, 0, obs1)
                 au = unscale(a) if sq else a
                 env["sampled"] = draws_or(tap, 0, au)
@@ -383,7 +393,7 @@ class C16(vlib.Driver):
                         out["illegal_rows"] = ill["rows"]
             elif scen == "reeval":
                 latent = actor.extract_features(torch.as_tensor(obs1))
-                a, lp, ent = actor.head_net.forward(latent, m1)
+                a, lp, ent = actor.head_net.forward(latent, fmt(m1, 1))
                 lp2 = actor.action_log_prob(a)
                 env["logit"] = logits_or(tap, 0, obs1)
                 env["sampled"] = draws_or(tap, 0, a)
@@ -391,9 +401,9 @@ class C16(vlib.Driver):
                 out["lp2"] = f64(lp2).reshape(-1).tolist()
             elif scen == "stored":
                 latent = actor.extract_features(torch.as_tensor(obs1))
-                a, _, _ = actor.head_net.forward(latent, m1)        # what a rollout stores (PPO: forward_head)
+                a, _, _ = actor.head_net.forward(latent, fmt(m1, 0))        # what a rollout stores (PPO: forward_head)
                 stored = a.clone()
-                a2, _, _ = actor(torch.as_tensor(obs2), m2)
+                a2, _, _ = actor(torch.as_tensor(obs2), fmt(m2, 1))
                 lp2 = actor.action_log_prob(stored)
                 env["logit"] = logits_or(tap, 0, obs1)
                 env["logit2"] = logits_or(tap, 1, obs2)
@@ -402,6 +412,8 @@ class C16(vlib.Driver):
                 env["action"] = rows2(stored, B)
                 out["lp2"] = f64(lp2).reshape(-1).tolist()
                 out["lp_shape"] = list(lp2.shape)
+                hit = bool(sq and len(tap.draws) >= 2 and tap.draws[1].shape == stored.shape
+                           and torch.equal(torch.tanh(tap.draws[1]), stored))
             elif scen in ("ppo_get", "ppo_eval"):
                 agent.set_training_mode(True) if hasattr(agent, "set_training_mode") else None
                 a, lp, ent, _ = agent.get_action(obs1, action_mask=m1)
@@ -423,9 +435,11 @@ class C16(vlib.Driver):
                     out["lp2"] = f64(lp2).reshape(-1).tolist()
                     out["ent2"] = f64(ent2).reshape(-1).tolist()
                     out["lp_shape"] = list(lp2.shape)
+                    hit = bool(sq and nd >= 2 and tap.draws[-1].shape == stored.shape
+                               and torch.equal(torch.tanh(tap.draws[-1]), stored))
             else:
                 raise ValueError(scen)
-        return {"env": env, "out": out}
+        return {"env": env, "out": out, "hit": hit}
 
     def tweak_head(self, actor, case, g):
         lin = last_linear(actor.head_net.wrapped)
@@ -468,6 +482,7 @@ class C16(vlib.Driver):
                 k = len(tap.logits)
                 out = orig(obs=obs, actions=actions)
                 calls.append({"logits": tap.logits[k].clone() if len(tap.logits) > k else None,
+                              "draw": tap.draws[-1].clone() if tap.draws else None,
                               "obs": obs.detach().clone() if isinstance(obs, torch.Tensor) else obs,
                               "actions": actions.detach().clone(), "lp": out[0].detach().clone(), "ent": out[1].detach().clone(),
                               "log_std": actor.head_net.log_std.detach().clone() if box else None})
@@ -496,7 +511,11 @@ class C16(vlib.Driver):
             env["low"], env["high"] = [list(map(float, sp["low"]))], [list(map(float, sp["high"]))]
         out = {"lp2": f64(c["lp"]).reshape(-1).tolist(), "ent2": f64(c["ent"]).reshape(-1).tolist(),
                "lp_shape": list(c["lp"].shape), "rows": int(lg.shape[0]), "actions_shape": list(c["actions"].shape)}
-        return {"env": env, "out": out}
+        hit = False
+        if sq and c["draw"] is not None:
+            env["sampled2"] = rows2(c["draw"], lg.shape[0])
+            hit = bool(c["draw"].shape == c["actions"].shape and torch.equal(torch.tanh(c["draw"]), c["actions"]))
+        return {"env": env, "out": out, "hit": hit}
 
     def run_ippo(self, case, g):
         from agilerl.algorithms.ippo import IPPO
@@ -629,12 +648,13 @@ class C16(vlib.Driver):
         return {"a": acts, "rows": rows} if rows else None
 
     # ---------- model side
-    def cfg_of(self, case):
+    def cfg_of(self, case, obs=None):
+        hit = bool(obs and obs.get("hit"))
         return (SCEN[case["scenario"]], coq_space(case["space"]), "true" if case["squash"] else "false",
-                "true" if case["masked"] else "false", case["B"])
+                "true" if case["masked"] else "false", case["B"], "true" if hit else "false")
 
     def cfg_term(self, cfg):
-        return f"run_scenario {cfg[0]} {cfg[1]} {cfg[2]} {cfg[3]} {cfg[4]}"
+        return f"run_scenario {cfg[0]} {cfg[1]} {cfg[2]} {cfg[3]} {cfg[4]} {cfg[5]}"
 
     def fetch_formulas(self, cfgs):
         need = [c for c in dict.fromkeys(cfgs) if c not in self._formulas]
@@ -659,7 +679,7 @@ class C16(vlib.Driver):
             self._pending = None
         if obs.get("raised"):
             return None
-        cfg = self.cfg_of(case)
+        cfg = self.cfg_of(case, obs)
         self.fetch_formulas([cfg])
         outs = self._formulas[cfg]
         env, out = obs["env"], obs["out"]
@@ -742,7 +762,8 @@ class C16(vlib.Driver):
                 acts, us = env["sampled"], (env["sampled"] if sq else None)
             else:
                 lg = ref_masked(env["logit2"], env.get("mask2") if scen == "stored" else None)
-                acts, us = env["action"], None
+                # stored tensor bit-identical to tanh of the current draw (saturated tanh): that draw is a preimage of it
+                acts, us = env["action"], (env["sampled2"] if (sq and obs.get("hit")) else None)
             for b in range(B):
                 want, sl = ref_logprob_row(sp, sq, lg[b], ls, acts[b], u=us[b] if us else None)
                 if not close(want, out["lp2"][b], sl):
@@ -822,6 +843,8 @@ class C16(vlib.Driver):
                 f"net_config={'partial' if case['partial_cfg'] else 'complete'}"]
         if sp["kind"] == "box" and case["squash"]:
             labs.append("branch=cached-sample" if case["scenario"] in ("fresh", "reeval", "ppo_get") else "branch=atanh-of-stored")
+        if obs.get("hit"):
+            labs.append("branch=stored-tensor-equals-tanh-of-current-draw(saturated)")
         if self.nontrivial(case, obs):
             labs.append("nontrivial")
         return labs
